@@ -55,6 +55,12 @@ def r11_1(prog: Program, rep: Report):
                     bare_qualifier_unguarded.append(1)
             elif cur_t is not None and T.contains(cur_t, lambda x: T.is_call_to(x, "builtins.getattr") and x[2][:2] == (t0, ("const", "__args__")) or T.is_call_to(x, f"{C.INSP}.args", "typing.get_args")):
                 found[kind] = True
+            elif cur_t is not None and cur_t[0] == "call" and cur_t[1][0] == "ref" and cur_t[1][1].startswith(C.INSP + "._") and cur_t[2][:1] == (t0,) and cur_t[1][1] in prog.functions:
+                # (the peel moved into a private helper: `_first_member_or_any(t)` -- it takes the member from the annotation's __args__)
+                hp_ = prog.functions[cur_t[1][1]]
+                hparam = ("param", hp_.params[0]) if hp_.params else None
+                if any(T.contains(tm, lambda x: x == ("attr", hparam, "__args__") or (T.is_call_to(x, "builtins.getattr") and x[2][:2] == (hparam, ("const", "__args__"))) or (T.is_call_to(x, f"{C.INSP}.args", "typing.get_args") and x[2][:1] == (hparam,))) for hpth in P.paths_of(prog, hp_) for tm in hpth.all_terms()):
+                    found[kind] = True
         elif any(pol and T.is_call_to(g, f"{C.INSP}.istypealiastype") and g[2] == (t0,) for g, pol in gs):
             val = ("attr", t0, "__value__")
             isstr = [pol for g, pol in gs if T.contains(g, lambda s: s == val) and (T.contains(g, lambda s: s == ("ref", "builtins.str")))]
@@ -134,8 +140,13 @@ def r11_1(prog: Program, rep: Report):
                 if items is not None and c[2] == ("call", ("elem", c[3][0][0]), (obj,), ()):
                     names.update(T.refname(x) for x in items if T.refname(x))
 
-    for _, r in P.returns(P.paths_of(prog, su)):
+    for p_, r in P.returns(P.paths_of(prog, su)):
         positive_calls(r)
+        # (the loop form: `for is_wrapper in _UNWRAPPABLE: if is_wrapper(obj): return True`)
+        if r == ("const", True):
+            for g_, pol_ in p_.guards():
+                if pol_:
+                    positive_calls(g_)
     need = {f"{C.INSP}.isclassvartype", f"{C.INSP}.isfinal"}
     rep.check(need <= names, "R11.1", su.qualname, su.loc, "should_unwrap consults the ClassVar and the Final predicate", f"should_unwrap does not consult {sorted(n.rsplit('.', 1)[-1] for n in need - names)}: that qualifier is never peeled", detail="qualifiers")
     # isliteral() looks through ClassVar (origin() peels it), so a `not isliteral(obj)` conjunct vetoes the peeling of
